@@ -53,6 +53,8 @@ def step (w : W) (ws : List String) : W × String :=
     let s := Aggkit.ReorgSync.step w.s .detectCrash
     ({ w with s := s }, s!"crashed {subStr "A" s.a} {subStr "B" s.b}")
   | ["restart"] => (w, s!"up {subStr "A" w.s.a} {subStr "B" w.s.b}")
+  -- restart with the first read(s) of the last-processed marker failing: the driver retries the read (Sync's loop)
+  | ["restart!"] => (w, s!"up {subStr "A" w.s.a} {subStr "B" w.s.b}")
   | ["end"] =>
     let round (s : Sys) : Sys :=
       let s := Aggkit.ReorgSync.step s .detect
